@@ -110,6 +110,14 @@ def stamp(detector, narrow_from=None, **kwargs):
     STAMPS.append({n: np.array(getattr(detector, n).array) for n in ("photon", "pixel", "signal", "image", "charge")})
 
 
+def set_image_ramp(detector, level=0.0, gain=1.0, **kwargs):
+    """Like set_image with a position-dependent offset: image[i, j] = round(level * gain) + 10 * i + j (fit-range replays)."""
+    import numpy as np
+    probe(detector, level=level, gain=gain, **kwargs)
+    r, c = detector.geometry.shape
+    detector.image.array = (int(round(level * gain)) + 10 * np.arange(r)[:, None] + np.arange(c)[None, :]).astype(np.uint16)
+
+
 def set_image(detector, level=0.0, gain=1.0, **kwargs):
     """Deterministic model for calibration replays: image = level * gain everywhere (float image via the pixel/signal
     chain is not needed: the fitness reads the 'image' bucket)."""
